@@ -37,7 +37,22 @@ pub fn case_strat() -> impl Strategy<Value = Case> {
         single_strat(),
         any::<u16>(),
     )
-        .prop_map(|(cfg, creates, prefix, probe, aim)| Case { cfg, creates, prefix, probe, aim })
+        .prop_map(|(cfg, creates, prefix, probe, aim)| {
+            // one probe in seven names a position (often somebody else's, with that account as
+            // receiver) but sends no unlocking duration
+            let probe = match probe {
+                POp::Single { user, pool, asset, amt, force_odd, swap_slip, liq_slip, receiver, lock } if aim % 7 == 3 => {
+                    let lock = Some(match lock {
+                        Some(l) => LockSpec { no_duration: true, existing: l.existing.or(Some(aim)), ..l },
+                        None => LockSpec { duration: 86_400, id: Some((aim % 4) as u8), existing: Some(aim), no_duration: true },
+                    });
+                    let receiver = receiver.or(Some((user.wrapping_add(1 + (aim % 3) as u8)) % 4));
+                    POp::Single { user, pool, asset, amt, force_odd, swap_slip, liq_slip, receiver, lock }
+                }
+                p => p,
+            };
+            Case { cfg, creates, prefix, probe, aim }
+        })
 }
 
 fn run_prefix(c: &Case) -> Sim {
@@ -109,7 +124,12 @@ impl Engine for Twin {
             st.bump(if p0.n() != 2 { "refused: pool with more than two assets" } else { "refused: empty pool" });
             return Ok(());
         }
-        if lock.is_some() && receiver.as_ref().map(|r| *r != sa.sender).unwrap_or(false) {
+        // (an identifier without an unlocking duration is no lock: the LP simply goes to the receiver)
+        let is_lock = lock.as_ref().map(|l| !l.no_duration).unwrap_or(false);
+        if lock.as_ref().map(|l| l.no_duration).unwrap_or(false) {
+            st.bump("probes naming a position without an unlocking duration");
+        }
+        if is_lock && receiver.as_ref().map(|r| *r != sa.sender).unwrap_or(false) {
             if sa.ok() {
                 return Err(format!("[C14] {what}: locked LP for an account other than the sender"));
             }
@@ -147,7 +167,7 @@ impl Engine for Twin {
             if proceeds > 0 {
                 funds.push(coin(proceeds, &ask_denom));
             }
-            let r2 = b.w.provide(&sender, &pool, &funds, liq_slip, swap_slip, receiver.clone(), lock.as_ref().map(|l| l.duration), lock_id.clone());
+            let r2 = b.w.provide(&sender, &pool, &funds, liq_slip, swap_slip, receiver.clone(), lock.as_ref().and_then(|l| l.dur()), lock_id.clone());
             b_ok = r2.is_ok();
             b_err = r2.err();
             if proceeds == 0 {
